@@ -25,6 +25,16 @@ fn arg<T: std::str::FromStr>(args: &[String], name: &str, default: T) -> T {
         .and_then(|v| v.parse().ok())
         .unwrap_or(default)
 }
+/// root of the verification tree this binary was built in (`<root>/harness/target-<geom>/<profile>/vharness`):
+/// defaults for the replay binary and the work directory are taken relative to it, so that a copy of
+/// the tree (e.g. a snapshot) never picks up the build outputs of another copy
+fn verif_root() -> String {
+    std::env::current_exe()
+        .ok()
+        .and_then(|p| p.ancestors().nth(4).map(|a| a.to_string_lossy().into_owned()))
+        .unwrap_or_else(|| "/verif".to_string())
+}
+
 fn arg_s(args: &[String], name: &str, default: &str) -> String {
     args.iter()
         .position(|a| a == name)
@@ -102,7 +112,7 @@ fn main() {
             for line in f.lines() {
                 let line = line.unwrap();
                 if let Some(a) = un.exec_line(&line).or_else(|| evalu::exec_line(&mut un, &line)).or_else(|| {
-                    replayt::exec_line(&mut un, &line, &arg_s(&args, "--bin", "/verif/harness/target-replay/debug/replay"), &arg_s(&args, "--work", "/verif/.work"))
+                    replayt::exec_line(&mut un, &line, &arg_s(&args, "--bin", &format!("{}/harness/target-replay/debug/replay", verif_root())), &arg_s(&args, "--work", &format!("{}/.work", verif_root())))
                 }) {
                     eng.line += 1;
                     for mut v in un.violations.drain(..) {
@@ -250,8 +260,8 @@ fn main() {
                 "meta" => u.meta(&mut rng, n),
                 "nvm" => nvm::generate(&mut u, &mut rng, n),
                 "replay" => {
-                    let bin = arg_s(&args, "--bin", "/verif/harness/target-replay/debug/replay");
-                    let work = arg_s(&args, "--work", "/verif/.work");
+                    let bin = arg_s(&args, "--bin", &format!("{}/harness/target-replay/debug/replay", verif_root()));
+                    let work = arg_s(&args, "--work", &format!("{}/.work", verif_root()));
                     replayt::generate(&mut u, &mut rng, n, &bin, &work)
                 }
                 _ => {
